@@ -28,7 +28,24 @@ def nt_gates(suite, case, impl):
     return len(vals) >= 2 and len(fw) >= 3
 
 
+def nt_server(suite, case, impl):
+    ops = [l.split()[1] for l in case["lines"] if l.startswith("op ")]
+    return "sub" in ops and "push" in ops and "recv" in ops
+
+
 PROPS = {
+    "C20": {
+        "suites": [("server", 1500, 20000)],
+        "props": ["C20"],
+        "level": "proof",
+        "technique": "Lean 4 theorems on an atomic-operation model of the server (invariant by induction over any push/recv interleaving, refinement of a subscriber's stream to burst++pushes) + differential correspondence through verif-tagged accessors",
+        "level_text": "stream_prefix proves for every interleaving of pushes and receives (every consumer speed) that a subscriber's received+queued blocks are burst++later pushes in order, complete until overflow; push_sub_inv/push_closed_frozen give closed-exactly-once and nothing-after-close; push_pointwise gives isolation; burst_spec/burst_negative/subscribe_spec give totality over all signed bursts; bufPush_* give the window clauses; send_never_blocks is the arithmetic core of the non-blocking send. Operations are atomic in the model (what the RWMutex provides); goroutine-level interleavings inside an operation are covered by the concurrent stress run of the thorough tier only.",
+        "level_note": LEVEL_NOTE_COMMON + "atomicity of PushBlock vs subscribe/unsubscribe (sync.RWMutex) and of channel operations is assumed, single producer; the Go scheduler/memory model is not modelled.",
+        "rule": "cases = one server (unbuffered or buffer size 0-8) driven by 5-45 generated ops (push incl. repeated ids, subscribe with burst from {-2^63,-1,0,0..9,2^63-1}, unsubscribe, non-blocking recv, Ready, buffer ids); 1 in 6 cases additionally overflows one never-reading subscriber by 215 pushes and drains it; distinct = sha1 of header+ops; non-trivial = contains push, subscribe and recv",
+        "nontrivial": nt_server,
+        "explanation": "model outputs compared op by op with the real server; an independent per-subscriber monitor checks burst++pushes order, overflow-close and window on the implementation's answers",
+        "assumptions": ["single producer goroutine", "RWMutex and channel semantics of the Go runtime"],
+    },
     "C17": {
         "suites": [("gates", 4000, 80000)],
         "props": ["C17"],
